@@ -273,8 +273,12 @@ func emit(prefix string, v any) {
 // the last one, which belongs to the minimal case.
 func Violation(t TB, id, test, caseRender, format string, args ...any) {
 	msg := fmt.Sprintf(format, args...)
-	emit("VERIF-VIOLATION", map[string]any{"property": id, "test": test, "what": msg, "case": caseRender})
-	t.Fatalf("VIOLATION %s: %s\ncase: %s", id, msg, caseRender)
+	v := map[string]any{"property": id, "test": test, "what": msg, "case": caseRender}
+	emit("VERIF-VIOLATION", v)
+	// The machine-readable line is repeated inside the failure message: the stdout of a native-fuzz
+	// worker process is not forwarded, its failure message is.
+	b, _ := json.Marshal(v)
+	t.Fatalf("VIOLATION %s: %s\ncase: %s\nVERIF-VIOLATION %s\n", id, msg, caseRender, b)
 }
 
 // KnownFinding prints the KNOWN-FINDING line for a listed finding that still reproduces.
